@@ -67,7 +67,7 @@ bool genRoot(Choices& c, const std::string& key, Root& out) {
     if (ref::legalMoves(p).empty()) return false; // checkmate / stalemate roots: nothing to search
     refdtm::Value v = refdtm::probe(p);
     int kind = c.pick(10);
-    if (kind < 4) p.hmc = c.range(0, 30);
+    if (kind < 3) p.hmc = c.range(0, 30);
     else if (kind < 7 && v.wdl != 0) p.hmc = std::min(99, std::max(0, 100 - v.plies + c.range(-4, 4))); // around the 50-move boundary
     else p.hmc = c.range(0, 99);
     p.fmc = 1 + p.hmc / 2 + c.range(0, 40);
@@ -232,9 +232,11 @@ int main(int argc, char** argv) {
             k.hash = c.of(std::vector<int>{8, 16, 64});
             k.threads = c.chance(1, 2) ? 1 : c.range(2, std::max(2, gMaxThreads));
             int n = c.range(3, maxRoots);
-            std::string cls = c.of(gClasses);
+            // classes that are drawn throughout (K+minor v K) get a quarter of the weight of the others
+            auto pickClass = [&]() { std::string k = c.of(gClasses); if (k.size() == 3 && strchr("BNbn", k[1] == 'k' ? k[2] : k[1]) && !c.chance(1, 4)) k = c.of(gClasses); return k; };
+            std::string cls = pickClass();
             for (int i = 0; i < n && (i < 3 || !c.empty()); i++) {
-                if (i > 0 && c.chance(1, 4)) cls = c.of(gClasses);
+                if (i > 0 && c.chance(1, 4)) cls = pickClass();
                 if (i > 0 && c.chance(1, 14)) { int m = c.range(5, 6); Root il = genInterlude(c); for (int j = 0; j < m; j++) k.r.push_back(il); }
                 Root r;
                 if (genRoot(c, cls, r)) k.r.push_back(r); else st.discarded++;
